@@ -56,12 +56,30 @@ func runC01(c *Ctx) {
 		n := 0
 		allInstrs(hb, func(in ssa.Instruction) {
 			cl, ok := in.(*ssa.Call)
-			if !ok || !cl.Call.IsInvoke() {
+			if !ok {
 				return
 			}
-			switch cl.Call.Method.Name() {
-			case "WriteFile", "WriteFileWithContext", "WriteToFile", "Chtimes", "Touch", "CreateFile", "Rm", "Remove", "Move", "Chmod":
-			default:
+			isWrite := func(name string) bool {
+				switch name {
+				case "WriteFile", "WriteFileWithContext", "WriteToFile", "Chtimes", "Touch", "CreateFile", "Rm", "Remove", "Move", "Chmod":
+					return true
+				}
+				return false
+			}
+			what := ""
+			if cl.Call.IsInvoke() {
+				if isWrite(cl.Call.Method.Name()) {
+					what = cl.Call.Method.Name()
+				}
+			} else if g := staticCallee(&cl.Call); g != nil && inPkg(fsPkgRel)(g) && g.Blocks != nil {
+				// a helper of the package that writes: the call stands for its writes
+				allInstrs(g, func(j ssa.Instruction) {
+					if k, ok := j.(*ssa.Call); ok && k.Call.IsInvoke() && isWrite(k.Call.Method.Name()) && what == "" {
+						what = k.Call.Method.Name()
+					}
+				})
+			}
+			if what == "" {
 				return
 			}
 			n++
@@ -71,8 +89,8 @@ func runC01(c *Ctx) {
 					live = true
 				}
 			}
-			c.check(live, "R9", fname(hb)+"/writes-only-while-alive:"+cl.Call.Method.Name(), c.ipos(cl), "the write lies where the context gate answered nil",
-				"the heartbeat goroutine calls "+cl.Call.Method.Name()+" where its context has ended (or was never consulted): the goroutine of a holder that released — its Unlock cancelled the context and removed the directory — may run this after the next holder has created the same directory and the same heartbeat file, and rewrites the content or the times of a live holder's heartbeat (back-dated: the live lock is reported stale and taken over)")
+			c.check(live, "R9", fname(hb)+"/writes-only-while-alive:"+what, c.ipos(cl), "the write lies where the context gate answered nil",
+				"the heartbeat goroutine calls "+what+" where its context has ended (or was never consulted): the goroutine of a holder that released — its Unlock cancelled the context and removed the directory — may run this after the next holder has created the same directory and the same heartbeat file, and rewrites the content or the times of a live holder's heartbeat (back-dated: the live lock is reported stale and taken over)")
 		})
 		if n == 0 {
 			c.violate("R9", fname(hb)+"/writes", c.pos(hb.Pos()), "the heartbeat goroutine writes nothing")
@@ -85,6 +103,7 @@ func runC01(c *Ctx) {
 	c.rule("R14", "the instant given to the heartbeat file is read after the write of that beat: a slow write does not back-date the heartbeat it has just made", 1)
 	c.heartBeatEveryBeat("R11", "R12", "R14")
 	c.lockDirectoryStampedOnceItExists("R15")
+	c.heartBeatStampsEveryBeat("R17")
 	// R16: "as long as the holder's heartbeat keeps running": the heartbeat lives on the context the acquire was given. The
 	// lock's own take-over path acquires by calling TryLock again: under a context that very function derives and cancels
 	// on its way out, the holder it has just made falls silent at once (the obligation C16/Y19, for the lock itself).
@@ -749,4 +768,72 @@ func (c *Ctx) lockDirectoryStampedOnceItExists(rule string) {
 	}
 	c.check(bad == "", rule, key, c.ipos(stamps[0]), "the instant given to the lock directory is read after the exclusive Mkdir",
 		bad+": a Mkdir that takes more than two heartbeat periods (a remote filesystem, a descheduled goroutine) back-dates the directory it has just created — until the first heartbeat file is there the lock is judged by that age, so the lock of a holder that has just acquired is reported stale, released by ReleaseIfStale and taken over")
+}
+
+// heartBeatStampsEveryBeat (C17/S15, evaluated as C01/R17): "while the holder is alive … the heartbeat is refreshed every
+// period". A beat is a write of the heartbeat file followed by Chtimes. The second half is what keeps the file's time fresh
+// when the first half cannot be done — setting the times of a path needs no file handle, writing a file does (a holder at
+// its limit of open files for a few periods). Every beat therefore reaches the Chtimes of the heartbeat path on every
+// backend: no round of the loop goes by without it, the rounds that end the goroutine aside. A helper stands for the call
+// only if every path through it makes it.
+func (c *Ctx) heartBeatStampsEveryBeat(rule string) {
+	c.rule(rule, "every round of the heartbeat loop sets the times of the heartbeat file (Chtimes, which needs no file handle) whatever the backend: no path from one beat to the next avoids it", 1)
+	hb := c.fnOpt(fsPkgRel, "heartBeat")
+	if hb == nil {
+		c.info(rule, "filesystem.heartBeat/absent", "-", "no heartBeat function (the heartbeat is written elsewhere)")
+		return
+	}
+	c.FuncsSeen[fname(hb)] = true
+	isChtimes := func(in ssa.Instruction) bool {
+		cl, ok := in.(*ssa.Call)
+		return ok && cl.Call.IsInvoke() && cl.Call.Method.Name() == "Chtimes"
+	}
+	// a helper that makes the call on every path from its entry to its returns
+	always := map[*ssa.Function]bool{}
+	allInstrs(hb, func(in ssa.Instruction) {
+		cl, ok := in.(*ssa.Call)
+		if !ok {
+			return
+		}
+		g := staticCallee(&cl.Call)
+		if g == nil || !inPkg(fsPkgRel)(g) || g.Blocks == nil {
+			return
+		}
+		has := false
+		allInstrs(g, func(j ssa.Instruction) { has = has || isChtimes(j) })
+		if has && pathPruned(g, nil, isChtimes, func(j ssa.Instruction) bool { _, isRet := j.(*ssa.Return); return isRet }, nil) == nil {
+			always[g] = true
+		}
+	})
+	stamp := func(in ssa.Instruction) bool {
+		if isChtimes(in) {
+			return true
+		}
+		if cl, ok := in.(*ssa.Call); ok {
+			if g := staticCallee(&cl.Call); g != nil && always[g] {
+				return true
+			}
+		}
+		return false
+	}
+	var anyLoopInstr ssa.Instruction
+	allInstrs(hb, func(in ssa.Instruction) {
+		if anyLoopInstr == nil && inLoop(in) {
+			anyLoopInstr = in
+		}
+	})
+	key := fname(hb) + "/every-beat-sets-the-times"
+	if anyLoopInstr == nil {
+		c.violate(rule, key, c.pos(hb.Pos()), "heartBeat has no loop: the heartbeat is written once")
+		return
+	}
+	hdr := loopHeaderOf(anyLoopInstr)
+	if hdr == nil {
+		c.undecided(rule, key, c.pos(hb.Pos()), "the loop of heartBeat was not recognised")
+		return
+	}
+	first := hdr.Instrs[0]
+	round := pathPruned(hb, first, stamp, func(in ssa.Instruction) bool { return in == first }, nil)
+	c.check(round == nil, rule, key, c.pos(hb.Pos()), "every round of the loop reaches the Chtimes of the heartbeat file",
+		"a round of the heartbeat loop can go by without the times of the heartbeat file being set (the call was made conditional — on the backend, on the outcome of the write — or moved into a helper that does not always make it): the write alone needs a file handle, so a holder that cannot open files for more than two periods (its process at the limit of open files) stops refreshing a heartbeat it could have refreshed, and its live lock is reported stale, released and taken over")
 }
